@@ -18,16 +18,37 @@ What is collected (one row per scalar; a list literal gives one row per element)
   np_isclose / math_isclose   calls in any function of a rule file, with their (default) tolerance arguments
 Keyword arguments of `op.X(...)` in a pattern are ATTRIBUTE patterns (AttrConstantPattern: `==`); they are counted, and the
 `==` is itself checked on the AST of AttrConstantPattern.matches.
+
+Where a number is expected, a CONSTANT EXPRESSION is accepted and evaluated with Python semantics (class _Scopes):
+literals, unary + -, binary + - * / ** of constant expressions, float(c) / int(c), math.pi / math.e / math.tau,
+math.sqrt(c), np.float32(c) / np.float64(c) (`math` / `np` / `numpy` bound once at module level by an import, `float` / `int`
+not rebound), and NAMES of constants:
+  module level   a name bound exactly once in the module scope, by `NAME = <constant expression>` (or the annotated form),
+                 that no function of the file declares `global`;
+  class level    `self.X` / `cls.X` / `Class.X` where X is bound exactly once in the body of the enclosing class (or of a base
+                 class named in the same file), to a constant expression, X is bound in no other class body of the rule
+                 files and no `<expr>.X = ...` store exists in the rule files;
+  local          a name bound exactly once in its function (not a parameter, no global / nonlocal) by `name = <constant
+                 expression>`: every successful read yields that value.
+A name bound more than once with a constant among its bindings is a `problem` where a pattern constant may be meant; every
+other name is a pattern variable / runtime value as before.  Trusted: no code outside the rule files rebinds such a name.
+The table is independent of line numbers and of the spelling of locals: `ce_line` holds the ORDINAL of the row among the
+rows of its file in source order, and the comment renders constant sub-expressions by their value and single-assignment
+locals by their defining expression.  The shape checks on _pattern_ir / _matcher / _ir_utils compare canonical forms
+(harness/c01_pynorm: early-return vs nested if, renamed locals / parameters, single-use locals; here also `return a if c
+else b` vs the if statement).
 """
 from __future__ import annotations
 
 import ast
+import copy
 import glob
 import inspect
 import math
 import os
 from fractions import Fraction
 
+from harness import c01_pynorm as pynorm
 from harness import common
 
 RULE_DIRS = ("onnxscript/rewriter/rules/common", "onnxscript/rewriter/rules/fusion")
@@ -67,6 +88,335 @@ def _num_list(node):
     return None
 
 
+# ----------------------------------------------------------------------------- constant expressions through names
+
+_FN = (ast.FunctionDef, ast.AsyncFunctionDef, ast.Lambda)
+_MATH_CONSTS = ("pi", "e", "tau")
+
+
+def _bindings(scope):
+    """name -> [(kind, value)] for every binding of the scope's own names (module / class body / function), nested
+    function, lambda and class bodies excluded (their names bind there).  kind: 'assign' (`name = value`, value kept),
+    'import' (value = module name), 'param', 'declared' (global / nonlocal), 'other'.  Comprehension targets are counted
+    for the enclosing scope (over-approximation: more bindings only make fewer names constants)."""
+    b = {}
+
+    def add(name, kind, val=None):
+        b.setdefault(name, []).append((kind, val))
+
+    if isinstance(scope, _FN):
+        a = scope.args
+        for p in list(a.posonlyargs) + list(a.args) + list(a.kwonlyargs) + ([a.vararg] if a.vararg else []) + ([a.kwarg] if a.kwarg else []):
+            add(p.arg, "param")
+    body = scope.body if isinstance(scope.body, list) else [scope.body]
+
+    def go(n):
+        if isinstance(n, (ast.FunctionDef, ast.AsyncFunctionDef, ast.ClassDef)):
+            add(n.name, "other")
+            return
+        if isinstance(n, ast.Lambda):
+            return
+        if isinstance(n, ast.Assign) and len(n.targets) == 1 and isinstance(n.targets[0], ast.Name):
+            add(n.targets[0].id, "assign", n.value)
+            go(n.value)
+            return
+        if isinstance(n, ast.AnnAssign) and isinstance(n.target, ast.Name):
+            add(n.target.id, "assign" if n.value is not None else "other", n.value)
+            if n.value is not None:
+                go(n.value)
+            return
+        if isinstance(n, ast.Name) and isinstance(n.ctx, (ast.Store, ast.Del)):
+            add(n.id, "other")
+        elif isinstance(n, ast.ExceptHandler) and n.name:
+            add(n.name, "other")
+        elif isinstance(n, ast.Import):
+            for al in n.names:
+                add(al.asname or al.name.split(".")[0], "import" if (al.asname or "." not in al.name) else "other", al.name)
+        elif isinstance(n, ast.ImportFrom):
+            for al in n.names:
+                add(al.asname or al.name, "other")
+        elif isinstance(n, (ast.Global, ast.Nonlocal)):
+            for nm in n.names:
+                add(nm, "declared")
+        elif type(n).__name__ in ("MatchAs", "MatchStar") and getattr(n, "name", None):
+            add(n.name, "other")
+        elif type(n).__name__ == "MatchMapping" and getattr(n, "rest", None):
+            add(n.rest, "other")
+        for c in ast.iter_child_nodes(n):
+            go(c)
+    for st in body:
+        go(st)
+    return b
+
+
+class _Scopes:
+    """Name resolution for one file.  chain = scopes from the innermost function outwards (functions / lambdas; a class
+    body only while one of its own expressions is evaluated); the module scope is always last."""
+
+    def __init__(self, tree, attr_index=None):
+        self.tree = tree
+        self.parent = {}
+        for n in ast.walk(tree):
+            for c in ast.iter_child_nodes(n):
+                self.parent[c] = n
+        self._b = {}
+        self._active = set()
+        self.module_b = self.bindings(tree)
+        self.globals_declared = {nm for n in ast.walk(tree) if isinstance(n, ast.Global) for nm in n.names}
+        self.classes = {}
+        for n in ast.walk(tree):
+            if isinstance(n, ast.ClassDef):
+                self.classes.setdefault(n.name, []).append(n)
+        self.attr_index = attr_index if attr_index is not None else attr_bindings([tree])
+
+    def bindings(self, scope):
+        if scope not in self._b:
+            self._b[scope] = _bindings(scope)
+        return self._b[scope]
+
+    def nonlocals_below(self, scope):
+        """names a function nested in scope declares nonlocal (it may rebind the scope's name)"""
+        key = ("nl", id(scope))
+        if key not in self._b:
+            self._b[key] = {nm for n in ast.walk(scope) if isinstance(n, ast.Nonlocal) for nm in n.names}
+        return self._b[key]
+
+    def module_data_name(self, name, chain):
+        """a name that is not bound in an enclosing function and is bound at module level by assignments only (no def /
+        class / import): data, so where a pattern constant may be written it must resolve"""
+        if any(name in self.bindings(sc) for sc in chain):
+            return False
+        ents = self.module_b.get(name, [])
+        return bool(ents) and all(k in ("assign", "other", "declared") for k, _ in ents) and name not in self.classes \
+            and not any(isinstance(n, (ast.FunctionDef, ast.AsyncFunctionDef)) and n.name == name for n in self.tree.body)
+
+    def chain_of(self, node):
+        """enclosing function scopes of a node, innermost first"""
+        out, n = [], self.parent.get(node)
+        while n is not None:
+            if isinstance(n, _FN):
+                out.append(n)
+            n = self.parent.get(n)
+        return out
+
+    def enclosing_class(self, node):
+        n = self.parent.get(node)
+        while n is not None:
+            if isinstance(n, ast.ClassDef):
+                return n
+            n = self.parent.get(n)
+        return None
+
+    # -- names
+    def lookup(self, name, chain):
+        """-> (kind, payload): ('const', v) | ('ambiguous', None) | ('import', module) | ('class', ClassDef) |
+        ('expr', (node, chain)) a single-assignment name with a non-constant value | ('opaque', None) | ('free', None)"""
+        scopes = list(chain) + [self.tree]
+        for i, sc in enumerate(scopes):
+            b = self.bindings(sc)
+            if name not in b:
+                continue
+            key = (id(sc), name)
+            if key in self._active:
+                return "opaque", None           # a binding that refers to itself
+            self._active.add(key)
+            try:
+                ents = b[name]
+                rest = [x for x in scopes[i:] if x is not self.tree]
+                consts = [self.cval(v, rest, 1) for k, v in ents if k == "assign"]
+                if any(k == "declared" for k, _ in ents) or (sc is self.tree and name in self.globals_declared) \
+                        or (sc is not self.tree and name in self.nonlocals_below(sc)):
+                    return ("ambiguous" if any(c is not None for c in consts) else "opaque"), None
+                if len(ents) == 1:
+                    k, v = ents[0]
+                    if k == "assign":
+                        return ("const", consts[0]) if consts[0] is not None else ("expr", (v, rest))
+                    if k == "import":
+                        return "import", v
+                    if k == "other" and sc is self.tree and len(self.classes.get(name, [])) == 1 \
+                            and self.parent.get(self.classes[name][0]) is self.tree:
+                        return "class", self.classes[name][0]
+                    return "opaque", None
+                return ("ambiguous" if any(c is not None for c in consts) else "opaque"), None
+            finally:
+                self._active.discard(key)
+        return "free", None
+
+    def _class_attr(self, cls, attr, seen=()):
+        """constant bound once to `attr` in the body of cls or of a base class named in this file -> value or None"""
+        if cls in seen:
+            return None
+        b = _bindings(cls)
+        if attr in b:
+            ents = b[attr]
+            if len(ents) == 1 and ents[0][0] == "assign":
+                return self.cval(ents[0][1], [cls], 1)
+            return None
+        for base in cls.bases:
+            nm = base.id if isinstance(base, ast.Name) else None
+            if nm and len(self.classes.get(nm, [])) == 1 and self.lookup(nm, [])[0] == "class":
+                v = self._class_attr(self.classes[nm][0], attr, tuple(seen) + (cls,))
+                if v is not None:
+                    return v
+        return None
+
+    def attr_const(self, node, chain):
+        """self.X / cls.X / Class.X -> ('const', v) | ('ambiguous', None) | ('opaque', None)"""
+        if not (isinstance(node, ast.Attribute) and isinstance(node.value, ast.Name)):
+            return "opaque", None
+        base, attr = node.value.id, node.attr
+        idx = self.attr_index.get(attr, {"class": 0, "store": 0})
+        cls = None
+        if base in ("self", "cls"):
+            for sc in chain:        # the method whose first parameter is `self` / `cls` (not rebound on the way out)
+                pos = (sc.args.posonlyargs + sc.args.args) if isinstance(sc, ast.FunctionDef) else []
+                if pos and pos[0].arg == base and isinstance(self.parent.get(sc), ast.ClassDef):
+                    if len(self.bindings(sc).get(base, [])) == 1:
+                        cls = self.parent.get(sc)
+                    break
+                if base in self.bindings(sc):
+                    break
+        else:
+            k, payload = self.lookup(base, chain)
+            if k == "class":
+                cls = payload
+        if cls is None:
+            return "opaque", None
+        v = self._class_attr(cls, attr)
+        if v is None:
+            return "opaque", None
+        if idx["class"] != 1 or idx["store"] != 0 or self.attr_index.get("*", {"store": 0})["store"]:
+            return "ambiguous", None
+        return "const", v
+
+    # -- expressions
+    def cval(self, node, chain, depth=0):
+        """constant expression -> int / float (Python semantics), else None"""
+        if depth > 12:
+            return None
+        v = self._cv(node, chain, depth)
+        if isinstance(v, bool) or v is None:
+            return None
+        if isinstance(v, int):
+            return v
+        try:
+            import numpy as np
+            if isinstance(v, (float, np.floating)):
+                f = float(v)
+                return f if math.isfinite(f) else None
+        except Exception:
+            return None
+        return None
+
+    def _cv(self, node, chain, depth):
+        import numpy as np
+        if isinstance(node, ast.Constant):
+            return node.value if isinstance(node.value, (int, float)) and not isinstance(node.value, bool) else None
+        if isinstance(node, ast.UnaryOp) and isinstance(node.op, (ast.USub, ast.UAdd)):
+            v = self._cv(node.operand, chain, depth + 1)
+            if v is None:
+                return None
+            return -v if isinstance(node.op, ast.USub) else +v
+        if isinstance(node, ast.BinOp) and isinstance(node.op, ARITH):
+            a, b = self._cv(node.left, chain, depth + 1), self._cv(node.right, chain, depth + 1)
+            if a is None or b is None:
+                return None
+            if isinstance(node.op, ast.Pow) and (abs(b) > 1024 or (isinstance(a, int) and abs(a) > 2 ** 64)):
+                return None
+            try:
+                with np.errstate(all="ignore"):
+                    r = {ast.Add: lambda: a + b, ast.Sub: lambda: a - b, ast.Mult: lambda: a * b, ast.Div: lambda: a / b,
+                         ast.Pow: lambda: a ** b}[type(node.op)]()
+            except Exception:
+                return None
+            return r if isinstance(r, (int, float, np.floating)) and not isinstance(r, bool) else None
+        if isinstance(node, ast.Name):
+            k, payload = self.lookup(node.id, chain) if depth < 12 else ("opaque", None)
+            return payload if k == "const" else None
+        if isinstance(node, ast.Attribute) and isinstance(node.value, ast.Name):
+            k, payload = self.lookup(node.value.id, chain)
+            if k == "import" and payload == "math" and node.attr in _MATH_CONSTS:
+                return getattr(math, node.attr)
+            k, payload = self.attr_const(node, chain)
+            return payload if k == "const" else None
+        if isinstance(node, ast.Call) and len(node.args) == 1 and not node.keywords and not isinstance(node.args[0], ast.Starred):
+            cal = _callee(node)
+            if cal is None:
+                return None
+            a = self._cv(node.args[0], chain, depth + 1)
+            if a is None:
+                return None
+            try:
+                if len(cal) == 1 and cal[0] in ("float", "int") and self.lookup(cal[0], chain)[0] == "free":
+                    return float(a) if cal[0] == "float" else int(a)
+                if len(cal) == 2:
+                    k, mod = self.lookup(cal[0], chain)
+                    if k == "import" and mod == "math" and cal[1] == "sqrt":
+                        return math.sqrt(a)
+                    if k == "import" and mod == "numpy" and cal[1] in ("float32", "float64"):
+                        with np.errstate(all="ignore"):
+                            return getattr(np, cal[1])(a)
+            except Exception:
+                return None
+        return None
+
+    def status(self, node, chain):
+        """'const' / 'ambiguous' (a name bound several times, one of them a constant: the reader cannot say which value is
+        matched) / 'other' for an expression in a position where a pattern constant may be written"""
+        if self.cval(node, chain) is not None:
+            return "const"
+        for n in ast.walk(node):
+            if isinstance(n, ast.Name) and isinstance(n.ctx, ast.Load) and self.lookup(n.id, chain)[0] == "ambiguous":
+                return "ambiguous"
+            if isinstance(n, ast.Name) and isinstance(n.ctx, ast.Load) and n is node and self.module_data_name(n.id, chain):
+                return "ambiguous"      # module-level data that is not a constant expression this reader evaluates
+            if isinstance(n, ast.Attribute) and self.attr_const(n, chain)[0] == "ambiguous":
+                return "ambiguous"
+        return "other"
+
+    def render(self, node, chain):
+        """text of an expression that does not depend on how constants / single-assignment locals are spelled"""
+        sc = self
+
+        class R(ast.NodeTransformer):
+            def __init__(self, depth):
+                self.depth = depth
+
+            def generic_visit(self, n):
+                if isinstance(n, ast.expr):
+                    v = sc.cval(n, chain)
+                    if v is not None:
+                        return ast.Constant(value=v)
+                return super().generic_visit(n)
+
+            def visit_Name(self, n):
+                v = sc.cval(n, chain)
+                if v is not None:
+                    return ast.Constant(value=v)
+                if isinstance(n.ctx, ast.Load) and self.depth < 3 and chain:
+                    k, payload = sc.lookup(n.id, chain)
+                    if k == "expr" and payload[1]:            # a local (not a module-level name)
+                        return R(self.depth + 1).visit(copy.deepcopy(payload[0]))
+                return n
+        return ast.unparse(ast.fix_missing_locations(R(0).visit(copy.deepcopy(node))))
+
+
+def attr_bindings(trees):
+    """attribute name -> {'class': number of class-body bindings, 'store': number of `<expr>.name = ...` stores} over trees"""
+    idx = {}
+    for tree in trees:
+        for n in ast.walk(tree):
+            if isinstance(n, ast.ClassDef):
+                for nm, ents in _bindings(n).items():
+                    idx.setdefault(nm, {"class": 0, "store": 0})["class"] += len(ents)
+            elif isinstance(n, ast.Attribute) and isinstance(n.ctx, (ast.Store, ast.Del)):
+                idx.setdefault(n.attr, {"class": 0, "store": 0})["store"] += 1
+            elif isinstance(n, ast.Call) and isinstance(n.func, ast.Name) and n.func.id in ("setattr", "delattr"):
+                key = n.args[1].value if len(n.args) > 1 and isinstance(n.args[1], ast.Constant) and isinstance(n.args[1].value, str) else "*"
+                idx.setdefault(key, {"class": 0, "store": 0})["store"] += 1
+    return idx
+
+
 def _callee(node):
     """dotted name of a call target: op.Pow -> ('op','Pow'); np.isclose -> ('np','isclose'); f -> ('f',)"""
     parts = []
@@ -80,11 +430,98 @@ def _callee(node):
     return None
 
 
+class _ReturnIfExp(ast.NodeTransformer):
+    """`return a if c else b`  ==  `if c: return a` / `return b` (c is evaluated once, then exactly one of a, b)."""
+
+    def visit_Return(self, node):
+        if isinstance(node.value, ast.IfExp):
+            e = node.value
+            return [ast.copy_location(ast.If(test=e.test, body=self._ret(e.body, node), orelse=[]), node)] + self._ret(e.orelse, node)
+        return node
+
+    def _ret(self, value, at):
+        r = self.visit_Return(ast.copy_location(ast.Return(value=value), at))
+        return r if isinstance(r, list) else [r]
+
+
+def _positive(test):
+    """the test whose negation `test` is, when test is written as a negation (`not t`, `a is not b`, `a != b`, `a not in b`)"""
+    if isinstance(test, ast.UnaryOp) and isinstance(test.op, ast.Not):
+        return test.operand
+    if isinstance(test, ast.Compare) and len(test.ops) == 1 and isinstance(test.ops[0], (ast.IsNot, ast.NotIn)):
+        return ast.Compare(left=test.left, ops=[{ast.IsNot: ast.Is, ast.NotIn: ast.In}[type(test.ops[0])]()], comparators=test.comparators)
+    return None
+
+
+def _orient(stmts):
+    """`if not t: B else: C` == `if t: C else: B`;  `if not t: B` + rest, B and rest both leaving the function, == `if t: rest` + B
+    (`is not` / `not in` are the negations of `is` / `in` for every operand; `!=` is left alone: __ne__ can be overridden)"""
+    out = []
+    for i, st in enumerate(stmts):
+        if isinstance(st, ast.If):
+            body, orelse, test = _orient(st.body), _orient(st.orelse), st.test
+            pos = _positive(test)
+            rest = _orient(stmts[i + 1:])
+            if pos is not None and orelse:
+                out.append(ast.copy_location(ast.If(test=pos, body=orelse, orelse=body), st))
+            elif pos is not None and pynorm.terminates(body) and pynorm.terminates(rest):
+                out.append(ast.copy_location(ast.If(test=pos, body=rest, orelse=[]), st))
+                out.extend(body)
+                return out
+            else:
+                out.append(ast.copy_location(ast.If(test=test, body=body, orelse=orelse), st))
+        else:
+            out.append(st)
+    return out
+
+
+def _prep(fn):
+    fn = ast.fix_missing_locations(_ReturnIfExp().visit(copy.deepcopy(fn)))
+    fn.body = _orient(pynorm.flatten(pynorm.strip_doc(fn.body) or [ast.Pass()]))
+    return ast.fix_missing_locations(fn)
+
+
+def _canon(fn, params=None):
+    """canonical form of a function (c01_pynorm: early-return chains, merged nested ifs, single-use locals inlined, locals and
+    parameters named by binding position); params = canonical names for the leading positional parameters instead"""
+    fn = _prep(fn)
+    if params is not None:
+        try:
+            fn = pynorm.rename_params(fn, params)
+        except pynorm.NotNormalisable:
+            pass
+        fn = ast.parse(ast.unparse(fn)).body[0]
+        fn.body = pynorm.strip_doc(fn.body) or [ast.Pass()]
+        fn.body = pynorm.merge_nested_ifs(pynorm.flatten(fn.body))
+        try:
+            fn = pynorm.inline_single_use(fn)
+        except pynorm.NotNormalisable:
+            pass
+        return ast.fix_missing_locations(fn)
+    return pynorm.canonical(fn)
+
+
+_IS_SINGLETON_REFERENCE = """
+def is_singleton_value(val, expected, *, rtol=None, rank=None):
+    scalar = get_singleton_value(val, rank=rank)
+    if scalar is None:
+        return False
+    if callable(expected):
+        return expected(scalar)
+    if isinstance(expected, int):
+        return expected == scalar
+    assert rtol is not None
+    return math.isclose(scalar, expected, rel_tol=rtol)
+"""
+
+
 def constant_defaults(repo):
-    """(rel_tol, abs_tol) defaults of _pattern_ir.Constant.__init__, and the facts the table relies on, from the AST."""
+    """(rel_tol, abs_tol) defaults of _pattern_ir.Constant.__init__, and the facts the table relies on, from the AST
+    (compared in canonical form: see _canon)."""
     problems = []
     path = os.path.join(repo, "onnxscript/rewriter/_pattern_ir.py")
     tree = ast.parse(open(path).read())
+    S = _Scopes(tree)
     rel = abs_ = None
     promo_ok = attr_eq_ok = clone_ok = False
     for n in ast.walk(tree):
@@ -93,26 +530,36 @@ def constant_defaults(repo):
                 if isinstance(f, ast.FunctionDef) and f.name == "__init__":
                     names = [a.arg for a in f.args.args]
                     defs = dict(zip(names[len(names) - len(f.args.defaults):], f.args.defaults))
-                    rel, abs_ = _num(defs.get("rel_tol")), _num(defs.get("abs_tol"))
+                    # defaults are evaluated in the scope enclosing the function
+                    rel = S.cval(defs["rel_tol"], S.chain_of(f)) if "rel_tol" in defs else None
+                    abs_ = S.cval(defs["abs_tol"], S.chain_of(f)) if "abs_tol" in defs else None
+                    if names[:4] != ["self", "value", "rel_tol", "abs_tol"]:
+                        rel = abs_ = None
                 if isinstance(f, ast.FunctionDef) and f.name == "clone":
                     # commuted copies of a rule are built with clone(): it must forward both tolerances
-                    for r in ast.walk(f):
-                        if isinstance(r, ast.Return) and isinstance(r.value, ast.Call) and _callee(r.value) == ("Constant",):
-                            src = [ast.unparse(a) for a in r.value.args] + [ast.unparse(k.value) for k in r.value.keywords]
-                            clone_ok = src == ["self._value", "self._rel_tol", "self._abs_tol"]
+                    g = _canon(f, ["self"])
+                    rets = [r for r in ast.walk(g) if isinstance(r, ast.Return)]
+                    if len(rets) == 1 and isinstance(rets[0].value, ast.Call) and _callee(rets[0].value) == ("Constant",):
+                        c = rets[0].value
+                        got = dict(zip(("value", "rel_tol", "abs_tol"), (ast.unparse(a) for a in c.args)))
+                        got.update({k.arg: ast.unparse(k.value) for k in c.keywords})
+                        clone_ok = got == {"value": "self._value", "rel_tol": "self._rel_tol", "abs_tol": "self._abs_tol"} \
+                            and not any(isinstance(a, ast.Starred) for a in c.args)
         if isinstance(n, ast.FunctionDef) and n.name == "_to_value_pattern":
             # `return Constant(x)` for int/float and for sequences: defaults apply to bare literals
-            rets = [ast.unparse(r.value) for r in ast.walk(n) if isinstance(r, ast.Return) and r.value is not None]
+            g = _canon(n, ["x"])
+            rets = [ast.unparse(r.value) for r in ast.walk(g) if isinstance(r, ast.Return) and r.value is not None]
             promo_ok = rets.count("Constant(x)") == 2
         if isinstance(n, ast.ClassDef) and n.name == "AttrConstantPattern":
             for f in n.body:
                 if isinstance(f, ast.FunctionDef) and f.name == "matches":
-                    rets = [r.value for r in ast.walk(f) if isinstance(r, ast.Return)]
+                    g = _canon(f, ["self"])
+                    rets = [r.value for r in ast.walk(g) if isinstance(r, ast.Return)]
                     cmp = [r for r in rets if isinstance(r, ast.Compare)]
                     attr_eq_ok = bool(cmp) and all(len(c.ops) == 1 and isinstance(c.ops[0], ast.Eq) for c in cmp) and \
                         all(isinstance(r, ast.Compare) or (isinstance(r, ast.Constant) and r.value is False) for r in rets)
     if rel is None or abs_ is None:
-        problems.append("_pattern_ir.Constant.__init__: rel_tol / abs_tol defaults not found as literals")
+        problems.append("_pattern_ir.Constant.__init__: rel_tol / abs_tol defaults not found as constant expressions")
     if not promo_ok:
         problems.append("_pattern_ir._to_value_pattern: bare literals are no longer promoted by `Constant(x)`")
     if not attr_eq_ok:
@@ -124,19 +571,27 @@ def constant_defaults(repo):
     calls = []
     for n in ast.walk(mt):
         if isinstance(n, ast.FunctionDef) and n.name == "_match_constant":
-            for c in ast.walk(n):
+            g = _canon(n, ["self", "pattern_constant", "value"])
+            b = _bindings(g)
+            for c in ast.walk(g):
                 if isinstance(c, ast.Call) and _callee(c) == ("math", "isclose"):
-                    calls.append({k.arg: ast.unparse(k.value) for k in c.keywords})
+                    kw = {}
+                    for k in c.keywords:
+                        v = k.value
+                        if isinstance(v, ast.Name) and len(b.get(v.id, [])) == 1 and b[v.id][0][0] == "assign":
+                            v = b[v.id][0][1]          # a local bound once: its defining expression
+                        kw[k.arg] = ast.unparse(v)
+                    calls.append(kw)
     if len(calls) != 2 or any(c != {"rel_tol": "pattern_constant._rel_tol", "abs_tol": "pattern_constant._abs_tol"} for c in calls):
         problems.append(f"_matcher._match_constant: math.isclose calls changed: {calls}")
     # is_singleton_value: int -> ==, float -> math.isclose(rel_tol=rtol)
     iu = ast.parse(open(os.path.join(repo, "onnxscript/rewriter/_ir_utils.py")).read())
     ok_sv = False
-    for n in ast.walk(iu):
+    want = pynorm.alpha_dump(_prep(ast.parse(_IS_SINGLETON_REFERENCE).body[0]))
+    for n in iu.body:
         if isinstance(n, ast.FunctionDef) and n.name == "is_singleton_value":
-            src = ast.unparse(n)
-            ok_sv = ("if isinstance(expected, int):\n        return expected == scalar" in src
-                     and "return math.isclose(scalar, expected, rel_tol=rtol)" in src and "assert rtol is not None" in src)
+            kwonly = [a.arg for a in n.args.kwonlyargs]
+            ok_sv = pynorm.alpha_dump(_prep(n)) == want and kwonly == ["rtol", "rank"]
     if not ok_sv:
         problems.append("_ir_utils.is_singleton_value: body changed (int: ==, float: math.isclose(rel_tol=rtol))")
     return rel, abs_, problems
@@ -184,7 +639,8 @@ def _int_only_input(op_type, idx, call=None, env=None):
 
 
 def scan(repo=None):
-    """-> (rows, stats, problems).  row = dict(file, line, kind, value, rel, abs, where)"""
+    """-> (rows, stats, problems).  row = dict(file, line, ord, kind, value, rel, abs, where); `ord` = position of the row
+    among the rows of its file in source order (what the table carries: stable when lines move)."""
     import numpy as np
     repo = repo or common.REPO
     rel_d, abs_d, problems = constant_defaults(repo)
@@ -192,19 +648,41 @@ def scan(repo=None):
     np_rel, np_abs = np_sig["rtol"].default, np_sig["atol"].default
     m_sig = inspect.signature(math.isclose).parameters
     m_rel, m_abs = m_sig["rel_tol"].default, m_sig["abs_tol"].default
-    rows, stats = [], {"files": 0, "pattern_functions": 0, "attr_patterns": 0, "dynamic_singletons": 0}
+    rows, stats = [], {"files": 0, "pattern_functions": 0, "attr_patterns": 0, "dynamic_singletons": 0, "named_constants": 0,
+                       "saturating_slice_bounds": 0}
+    files = []
     for d in RULE_DIRS:
         for path in sorted(glob.glob(os.path.join(repo, d, "*.py"))):
             base = os.path.basename(path)
             if base.endswith("_test.py") or base == "__init__.py":
                 continue
+            files.append((path, ast.parse(open(path).read())))
+    attr_index = attr_bindings([t for _, t in files])
+    for path, tree in files:
             stats["files"] += 1
             rel = os.path.relpath(path, os.path.join(repo, "onnxscript/rewriter"))
-            tree = ast.parse(open(path).read())
+            S = _Scopes(tree, attr_index)
+            file_rows = []
             funcs = {}
             for n in ast.walk(tree):
                 if isinstance(n, (ast.FunctionDef,)):
                     funcs.setdefault(n.name, []).append(n)
+
+            def num(node, chain):
+                v = S.cval(node, chain)
+                if v is not None and _num(node) is None:
+                    stats["named_constants"] += 1
+                return v
+
+            def num_list(node, chain):
+                if isinstance(node, (ast.List, ast.Tuple)) and node.elts and all(S.cval(e, chain) is not None for e in node.elts):
+                    return [num(e, chain) for e in node.elts]
+                return None
+
+            def tol(node, chain, what, line):
+                """tolerance argument -> number; a non-constant one is a problem (None)"""
+                return S.cval(node, chain)
+
             # helpers returning a Constant: name -> (rel, abs) with the value taken from the call's first argument
             helpers = {}
             for n in tree.body:
@@ -212,13 +690,14 @@ def scan(repo=None):
                     rets = [r for r in ast.walk(n) if isinstance(r, ast.Return)]
                     if len(rets) == 1 and isinstance(rets[0].value, ast.Call) and (_callee(rets[0].value) or ("",))[-1] == "Constant":
                         c = rets[0].value
-                        if c.args and isinstance(c.args[0], ast.Name) and c.args[0].id == n.args.args[0].arg:
-                            kw = {k.arg: _num(k.value) for k in c.keywords}
-                            pos = [_num(a) for a in c.args[1:]]
+                        if c.args and isinstance(c.args[0], ast.Name) and c.args[0].id == n.args.args[0].arg \
+                                and len(S.bindings(n).get(n.args.args[0].arg, [])) == 1:
+                            kw = {k.arg: S.cval(k.value, [n]) for k in c.keywords}
+                            pos = [S.cval(a, [n]) for a in c.args[1:]]
                             r = kw.get("rel_tol", pos[0] if len(pos) > 0 else rel_d)
                             a = kw.get("abs_tol", pos[1] if len(pos) > 1 else abs_d)
                             if r is None or a is None:
-                                problems.append(f"{rel}:{n.lineno}: helper {n.name}: tolerance is not a literal")
+                                problems.append(f"{rel}:{n.lineno}: helper {n.name}: tolerance is not a constant expression")
                             else:
                                 helpers[n.name] = (r, a)
             # roles of module-level functions: RewriteRule(target, replacement[, condition])
@@ -245,9 +724,21 @@ def scan(repo=None):
                                 role[c.func.id] = "pattern"
                                 changed = True
 
-            def add(kind, v, r, a, line, where):
-                for x in (v if isinstance(v, list) else [v]):
-                    rows.append(dict(file=rel, line=line, kind=kind, value=x, rel=r, abs=a, where=where))
+            seen = set()
+
+            def add(kind, v, r, a, node, where, sub=0):
+                for j, x in enumerate(v if isinstance(v, list) else [v]):
+                    key = (node.lineno, node.col_offset, sub, j, kind)
+                    if key in seen:
+                        continue            # the same call reached through an enclosing function
+                    seen.add(key)
+                    file_rows.append(dict(file=rel, line=node.lineno, kind=kind, value=x, rel=r, abs=a, where=where, _pos=key))
+
+            def ambiguous(node, chain, what):
+                if S.status(node, chain) == "ambiguous":
+                    problems.append(f"{rel}:{node.lineno}: {what}: `{ast.unparse(node)}` names a constant bound more than once, or module-level data that is not a constant expression")
+                    return True
+                return False
 
             for name, fl in funcs.items():
                 for f in fl:
@@ -259,93 +750,112 @@ def scan(repo=None):
                     if is_pat:
                         stats["pattern_functions"] += 1
                     for c in ast.walk(f):
+                        ch = S.chain_of(c)
                         if isinstance(c, ast.Call):
                             cal = _callee(c)
                             if cal is None:
                                 continue
                             last = cal[-1]
                             if last == "Constant" and cal[0] != "op":
-                                v = _num(c.args[0]) if c.args else None
-                                vl = _num_list(c.args[0]) if c.args else None
+                                v = num(c.args[0], ch) if c.args else None
+                                vl = num_list(c.args[0], ch) if c.args else None
                                 if v is None and vl is None:
                                     if name in helpers:
                                         continue          # the helper's own `Constant(value, ...)`
                                     problems.append(f"{rel}:{c.lineno}: Constant(...) with a non-literal value")
                                     continue
-                                kw = {k.arg: _num(k.value) for k in c.keywords}
-                                pos = [_num(a) for a in c.args[1:]]
+                                kw = {k.arg: S.cval(k.value, ch) for k in c.keywords}
+                                pos = [S.cval(a, ch) for a in c.args[1:]]
                                 r = kw["rel_tol"] if "rel_tol" in kw else (pos[0] if len(pos) > 0 else rel_d)
                                 a = kw["abs_tol"] if "abs_tol" in kw else (pos[1] if len(pos) > 1 else abs_d)
                                 if r is None or a is None:
-                                    problems.append(f"{rel}:{c.lineno}: Constant(...) tolerance is not a literal")
+                                    problems.append(f"{rel}:{c.lineno}: Constant(...) tolerance is not a constant expression")
                                     continue
                                 if not is_pat:
                                     problems.append(f"{rel}:{c.lineno}: pattern Constant outside a recognised target pattern ({name})")
-                                add("pattern", v if v is not None else vl, r, a, c.lineno, f"{name}: {ast.unparse(c)}")
-                            elif len(cal) == 1 and last in helpers:
-                                v = _num(c.args[0]) if c.args else None
+                                add("pattern", v if v is not None else vl, r, a, c, f"{name}: {S.render(c, ch)}")
+                            elif len(cal) == 1 and last in helpers and S.lookup(last, ch)[0] == "opaque":
+                                v = num(c.args[0], ch) if c.args else None
                                 if v is None:
                                     problems.append(f"{rel}:{c.lineno}: {last}(...) with a non-literal value")
                                     continue
-                                add("pattern", v, helpers[last][0], helpers[last][1], c.lineno, f"{name}: {ast.unparse(c)}")
+                                add("pattern", v, helpers[last][0], helpers[last][1], c, f"{name}: {S.render(c, ch)}")
                             elif cal[0] == "op" and len(cal) == 2 and is_pat:
                                 for i, a in enumerate(c.args):
-                                    v, vl = _num(a), _num_list(a)
+                                    v, vl = num(a, ch), num_list(a, ch)
                                     if v is None and vl is None:
+                                        ambiguous(a, ch, f"op.{last} input {i}")
                                         continue
-                                    ints = all(isinstance(x, int) for x in (vl if vl is not None else [v]))
-                                    kind = "pattern_int" if ints and _int_only_input(last, i, c, env) else "pattern"
-                                    add(kind, v if v is not None else vl, rel_d, abs_d, c.lineno, f"{name}: op.{last} input {i}")
+                                    vals = vl if vl is not None else [v]
+                                    ints = all(isinstance(x, int) for x in vals)
+                                    int_only = ints and _int_only_input(last, i, c, env)
+                                    if int_only and last == "Slice" and i in (1, 2) and all(abs(x) >= 2 ** 62 for x in vals):
+                                        # `ends` = INT64_MAX ("to the end"): Slice clamps every bound beyond the dimension, and a
+                                        # value within the default tolerance of 2**63 is beyond every dimension; counted, not a row
+                                        stats["saturating_slice_bounds"] += len(vals)
+                                        continue
+                                    kind = "pattern_int" if int_only else "pattern"
+                                    add(kind, v if v is not None else vl, rel_d, abs_d, c, f"{name}: op.{last} input {i}", sub=1 + i)
                                 for k in c.keywords:
-                                    if k.arg and not k.arg.startswith("_") and (_num(k.value) is not None or _num_list(k.value) is not None):
+                                    if k.arg and not k.arg.startswith("_") and (S.cval(k.value, ch) is not None or num_list(k.value, ch) is not None):
                                         stats["attr_patterns"] += 1
                             elif last == "is_singleton_value":
                                 if len(c.args) < 2:
                                     problems.append(f"{rel}:{c.lineno}: is_singleton_value with fewer than 2 positional arguments")
                                     continue
-                                v = _num(c.args[1])
+                                v = num(c.args[1], ch)
                                 kw = {k.arg: k.value for k in c.keywords}
                                 if v is None:
-                                    if "rtol" in kw:
-                                        problems.append(f"{rel}:{c.lineno}: is_singleton_value(non-literal, rtol=..) not modelled")
+                                    if "rtol" in kw or ambiguous(c.args[1], ch, "is_singleton_value"):
+                                        if "rtol" in kw:
+                                            problems.append(f"{rel}:{c.lineno}: is_singleton_value(non-literal, rtol=..) not modelled")
                                     else:
                                         stats["dynamic_singletons"] += 1      # int (==) or predicate; a float would fail the assert
                                     continue
                                 if isinstance(v, int):
-                                    add("singleton_int", v, 0.0, 0.0, c.lineno, f"{name}: {ast.unparse(c)}")
+                                    add("singleton_int", v, 0.0, 0.0, c, f"{name}: {S.render(c, ch)}")
                                 else:
-                                    r = _num(kw["rtol"]) if "rtol" in kw else None
+                                    r = S.cval(kw["rtol"], ch) if "rtol" in kw else None
                                     if r is None:
-                                        problems.append(f"{rel}:{c.lineno}: is_singleton_value(float) without a literal rtol")
+                                        problems.append(f"{rel}:{c.lineno}: is_singleton_value(float) without a constant rtol")
                                         continue
-                                    add("singleton", v, r, 0.0, c.lineno, f"{name}: {ast.unparse(c)}")
+                                    add("singleton", v, r, 0.0, c, f"{name}: {S.render(c, ch)}")
                             elif last in ("isclose", "allclose"):
-                                if cal[0] in ("np", "numpy") and last == "isclose":
+                                mod = S.lookup(cal[0], ch) if len(cal) == 2 else ("", None)
+                                if mod == ("import", "numpy") and last == "isclose":
                                     kind, r0, a0, rk, ak = "np_isclose", np_rel, np_abs, "rtol", "atol"
-                                elif cal[0] == "math":
+                                elif mod == ("import", "math") and last == "isclose":
                                     kind, r0, a0, rk, ak = "math_isclose", m_rel, m_abs, "rel_tol", "abs_tol"
                                 else:
                                     problems.append(f"{rel}:{c.lineno}: unrecognised closeness test {'.'.join(cal)}")
                                     continue
-                                vals = [_const_expr(a) for a in c.args[:2]]
+                                vals = [num(a, ch) for a in c.args[:2]]
                                 lit = [x for x in vals if x is not None]
-                                if len(lit) != 1:
-                                    problems.append(f"{rel}:{c.lineno}: {'.'.join(cal)} without exactly one literal side")
+                                if len(lit) != 1 or any(ambiguous(a, ch, ".".join(cal)) for a in c.args[:2]):
+                                    problems.append(f"{rel}:{c.lineno}: {'.'.join(cal)} without exactly one constant side")
                                     continue
-                                kw = {k.arg: _num(k.value) for k in c.keywords}
-                                pos = [_num(a) for a in c.args[2:]]
+                                kw = {k.arg: S.cval(k.value, ch) for k in c.keywords}
+                                pos = [S.cval(a, ch) for a in c.args[2:]]
                                 r = kw[rk] if rk in kw else (pos[0] if len(pos) > 0 else r0)
                                 a = kw[ak] if ak in kw else (pos[1] if len(pos) > 1 else a0)
-                                if r is None or a is None:
-                                    problems.append(f"{rel}:{c.lineno}: {'.'.join(cal)} tolerance is not a literal")
+                                if r is None or a is None or set(kw) - {rk, ak}:
+                                    problems.append(f"{rel}:{c.lineno}: {'.'.join(cal)} tolerance is not a constant expression")
                                     continue
-                                add(kind, lit[0], r, a, c.lineno, f"{name}: {ast.unparse(c)}")
+                                add(kind, lit[0], r, a, c, f"{name}: {S.render(c, ch)}")
                         elif isinstance(c, ast.BinOp) and isinstance(c.op, ARITH) and is_pat:
-                            for side in (c.left, c.right):
-                                v = _num(side)
-                                other = c.right if side is c.left else c.left
-                                if v is not None and _const_expr(other) is None:
-                                    add("pattern", v, rel_d, abs_d, c.lineno, f"{name}: {ast.unparse(c)}")
+                            if S.cval(c, ch) is not None:
+                                continue        # a closed constant expression: handled where it is used
+                            for si, side in enumerate((c.left, c.right)):
+                                v = num(side, ch)
+                                if v is not None:
+                                    add("pattern", v, rel_d, abs_d, c, f"{name}: {S.render(c, ch)}", sub=1 + si)
+                                else:
+                                    ambiguous(side, ch, "arithmetic on a pattern value")
+            file_rows.sort(key=lambda r: r["_pos"])
+            for i, r in enumerate(file_rows):
+                r["ord"] = i + 1
+                del r["_pos"]
+            rows += file_rows
     return rows, stats, problems
 
 
@@ -359,14 +869,15 @@ def cq(x):
 
 
 def to_coq(rows):
-    lines = ["(* GENERATED by harness/c05_consts_py2v.py from onnxscript/rewriter/rules/{common,fusion}/*.py -- do not edit. *)",
+    lines = ["(* GENERATED by harness/c05_consts_py2v.py from onnxscript/rewriter/rules/{common,fusion}/*.py -- do not edit.",
+             "   ce_line = position of the row among the rows of its file, in source order (independent of line numbers). *)",
              "From Coq Require Import ZArith QArith List String.", "Require Import OV.Rules.XNoOp.", "Import ListNotations.",
              "Local Open Scope string_scope.", "",
              "Definition table : list centry := ["]
     ents = []
     for r in rows:
         ents.append('  {| ce_file := "%s"; ce_line := %d%%Z; ce_kind := %s; ce_value := %s; ce_rel := %s; ce_abs := %s |}  (* %s *)' % (
-            r["file"], r["line"], KIND_COQ[r["kind"]], cq(r["value"]), cq(r["rel"]), cq(r["abs"]),
+            r["file"], r["ord"], KIND_COQ[r["kind"]], cq(r["value"]), cq(r["rel"]), cq(r["abs"]),
             r["where"].replace("(*", "( *").replace("*)", "* )")[:110]))
     body = []
     for i, e in enumerate(ents):
